@@ -1082,8 +1082,12 @@ End Loader.
 (* ---------------------------------------------------------------------------------------------------------------- *)
 Section Final.
 Variable coerce : text -> V.
+Variable is_none : V -> bool.
 Notation load_at := (load_config_at_path V coerce).
-Notation file_config := (file_config V coerce).
+Notation file_config := (file_config V coerce is_none).
+Notation run := (run V coerce is_none).
+Notation run_c := (run_c V coerce is_none).
+Notation file_config_c := (file_config_c V coerce is_none).
 
 Lemma single_wf k (x : cfg) : wf x -> wfd [(k, x)].
 Proof. intros H. constructor; [constructor; [intros []|constructor]|]. constructor; [exact H|constructor]. Qed.
@@ -1095,9 +1099,9 @@ Lemma configs_or_empty_wf c : wfd c -> wfd (configs_or_empty V c).
 Proof. intros H. destruct c as [|a l]; [|exact H]. apply single_wf. apply wfd_nil. Qed.
 
 (* PRECEDENCE *)
-Theorem precedence f e rt sf E :
+Theorem precedence f e rt rq sf E :
   fs_wf f -> wfd (r_defaults V rt) -> wfd (r_overrides V rt) ->
-  file_config f e rt sf = Ok E ->
+  file_config f e rt rq sf = Ok E ->
   exists configs,
     load_config_up_to_path V coerce f e (fst sf) (r_extra V rt) (r_ignore_local V rt) = Ok configs /\
     forall p, p <> [] -> kind_at p E = spec_kind V coerce f e rt sf (is_nil configs) p.
@@ -1106,6 +1110,7 @@ Proof.
   destruct (load_config_up_to_path V coerce f e (fst sf) (r_extra V rt) (r_ignore_local V rt)) as [configs|e0] eqn:Eu;
     [|discriminate]. cbn [bind] in H.
   destruct (fluff_init V (r_defaults V rt) configs (r_overrides V rt)) as [c0|e0] eqn:Ei; [|discriminate]. cbn [bind] in H.
+  destruct (dialect_check V is_none rq c0) as [[]|e0]; [|discriminate]. cbn [bind] in H.
   exists configs. split; [reflexivity|]. intros p Hp.
   rewrite (process_raw_kind coerce (snd sf) c0 E p Hp H). unfold spec_kind. f_equal.
   destruct (up_to_kind coerce f e (fst sf) (r_extra V rt) (r_ignore_local V rt) configs Hf Eu) as [Hwc Hkc].
@@ -1143,11 +1148,11 @@ Qed.
 Lemma In_tl {A} (x : A) l : In x (tl l) -> In x l.
 Proof. destruct l; [intros [] | intros H; right; exact H]. Qed.
 
-Theorem isolation f f' e rt sf :
+Theorem isolation f f' e rt rq sf :
   (forall q, In q (relevant V f e (r_extra V rt) (fst sf)) -> assoc_path q f = assoc_path q f') ->
-  file_config f e rt sf = file_config f' e rt sf.
+  file_config f e rt rq sf = file_config f' e rt rq sf.
 Proof.
-  intros Hag. unfold Config.file_config, from_path. f_equal.
+  intros Hag. unfold Config.file_config, from_path. f_equal. f_equal.
   unfold relevant in Hag.
   set (cross := cross_dir e) in *.
   set (I1 := iter_intermediate_paths V f (fst sf) (e_home e)) in *.
@@ -1188,11 +1193,11 @@ Qed.
 
 (* a run is file-by-file: the result for a file does not depend on which other files are linted, or in what order *)
 Lemma run_nth f e rt files i :
-  nth_error (run V coerce f e rt files) i = option_map (file_config f e rt) (nth_error files i).
-Proof. unfold run. apply nth_error_map. Qed.
+  nth_error (run f e rt files) i = option_map (file_config f e rt true) (nth_error files i).
+Proof. unfold Config.run. apply nth_error_map. Qed.
 
-Lemma run_app f e rt l1 l2 : run V coerce f e rt (l1 ++ l2) = run V coerce f e rt l1 ++ run V coerce f e rt l2.
-Proof. unfold run. apply map_app. Qed.
+Lemma run_app f e rt l1 l2 : run f e rt (l1 ++ l2) = run f e rt l1 ++ run f e rt l2.
+Proof. unfold Config.run. apply map_app. Qed.
 
 (* ---------------------------------------------------------------------------------------------------------------- *)
 (* the functools caches are transparent: threading them through a run changes no result *)
@@ -1325,22 +1330,23 @@ Proof.
 Qed.
 
 Lemma file_config_c_ok f e rt sf c : cache_ok f c ->
-  exists c', file_config_c V coerce f e rt sf c = (file_config f e rt sf, c') /\ cache_ok f c'.
+  exists c', file_config_c f e rt sf c = (file_config f e rt true sf, c') /\ cache_ok f c'.
 Proof.
-  intros Hc. unfold file_config_c, Config.file_config, from_path.
+  intros Hc. unfold Config.file_config_c, Config.file_config, from_path.
   destruct (up_to_c_ok f e (fst sf) (r_extra V rt) (r_ignore_local V rt) c Hc) as (c1 & H1 & Hc1).
   unfold mbind. rewrite H1.
   destruct (load_config_up_to_path V coerce f e (fst sf) (r_extra V rt) (r_ignore_local V rt)) as [configs|e0]; cbn [bind].
-  - unfold mlift. exists c1. split; [|exact Hc1]. destruct (fluff_init V _ configs _); reflexivity.
+  - unfold mlift. exists c1. split; [|exact Hc1]. destruct (fluff_init V _ configs _) as [c0|e0]; [|reflexivity]. cbn [bind].
+    destruct (dialect_check V is_none true c0) as [[]|e0]; reflexivity.
   - exists c1. split; [reflexivity | exact Hc1].
 Qed.
 
 Theorem cache_transparent f e rt : forall files c, cache_ok f c ->
-  exists c', run_c V coerce f e rt files c = (run V coerce f e rt files, c') /\ cache_ok f c'.
+  exists c', run_c f e rt files c = (run f e rt files, c') /\ cache_ok f c'.
 Proof.
   induction files as [|sf files IH]; intros c Hc.
   - exists c. split; [reflexivity | exact Hc].
-  - cbn [run_c]. destruct (file_config_c_ok f e rt sf c Hc) as (c1 & H1 & Hc1). rewrite H1.
+  - cbn [Config.run_c]. destruct (file_config_c_ok f e rt sf c Hc) as (c1 & H1 & Hc1). rewrite H1.
     destruct (IH c1 Hc1) as (c2 & H2 & Hc2). rewrite H2. exists c2. split; [reflexivity | exact Hc2].
 Qed.
 
